@@ -255,6 +255,9 @@ func opKinds(p *Prog) map[string]bool {
 		rex(o.R)
 		rex(o.S)
 		rex(o.D)
+		for i := range o.Elems {
+			rex(&o.Elems[i].R)
+		}
 		for i := range o.Rs {
 			rex(&o.Rs[i])
 		}
@@ -288,7 +291,7 @@ func nontrivial(p *Prog) bool {
 	k := opKinds(p)
 	n := 0
 	for _, s := range []string{"expr:adr", "expr:sl", "expr:new", "op:app", "op:apps", "op:cp", "op:ms", "op:call", "op:mul", "op:capture",
-		"op:range", "expr:id", "op:muld", "op:lk2", "op:rcv", "op:as2"} {
+		"op:range", "expr:id", "op:muld", "op:lk2", "op:rcv", "op:as2", "op:clit"} {
 		if k[s] {
 			n++
 		}
